@@ -354,6 +354,37 @@ func runC08(r *ev.Run) {
 				}
 			case c < 14:
 				before := s.VerifSegmentIDs()
+				if !background && rng.IntN(4) == 0 {
+					// injected I/O fault: the next segment's file cannot be created; whatever Flush answers, every
+					// acknowledged document stays visible, and the next Flush (fault gone) works
+					comps := []string{"hybrid"}
+					if p.VecKind != "" {
+						comps = append(comps, "vector")
+					}
+					if p.Text {
+						comps = append(comps, "text")
+					}
+					if p.Meta {
+						comps = append(comps, "metadata")
+					}
+					comp := comps[rng.IntN(len(comps))]
+					obst := obstructNextSegments(dir, comp, 3)
+					err := s.Flush()
+					clearObstacles(obst)
+					log = append(log, fmt.Sprintf("Flush with the next %s files obstructed -> %v", comp, err))
+					if err := m.noteFlush(dir, p, before, s.VerifSegmentIDs()); err != nil {
+						rep("store.segment-unreadable-after-flush", err.Error())
+					}
+					if err != nil {
+						r.Count("ops:flush-failed-by-injected-io-fault", 1)
+					}
+					probe("after-failed-flush")
+					if rng.IntN(2) == 0 {
+						s.VerifEvictAllCaches()
+						probe("after-failed-flush-evicted")
+					}
+					before = s.VerifSegmentIDs()
+				}
 				err := s.Flush()
 				log = append(log, fmt.Sprintf("Flush -> %v", err))
 				if err != nil {
@@ -473,7 +504,7 @@ func isNilIface(x any) bool {
 }
 
 var schedulePoints = []string{
-	"memq.add.picked", "memtable.add.prelock", "flush.begin", "crash:flush.create.hybrid", "crash:flush.create.vector", "crash:flush.written",
+	"memq.add.picked", "memtable.add.prelock", "memtable.add.locked", "flush.begin", "crash:flush.create.hybrid", "crash:flush.create.vector", "crash:flush.written",
 	"crash:flush.close.vector", "crash:flush.close.hybrid", "crash:flush.added", "flush.registered", "flush.dropped",
 	"segment.load.begin", "segment.load.done", "search.listed-memtables", "search.listed-segments", "memq.list", "segmgr.list",
 	"compact.begin", "crash:compact.create.hybrid", "crash:compact.written", "crash:compact.added", "crash:compact.removed", "crash:delete.before", "compact.end",
